@@ -6,6 +6,7 @@ import (
 	"encoding/json"
 	"flag"
 	"fmt"
+	"go/token"
 	"go/types"
 	"golang.org/x/tools/go/ssa"
 	"os"
@@ -22,6 +23,7 @@ const verifDir = "/verif"
 type propConfig struct {
 	AtomicScan   bool     `json:"atomic_scan"`
 	StableScan   bool     `json:"stable_scan"` // include the stable-field store-scan obligations
+	ImmutableScan bool    `json:"immutable_scan"` // include the immutable-implementation store-scan obligations
 	Property     string   `json:"property"`
 	Title        string   `json:"title"`
 	Lemma        string   `json:"lemma"`
@@ -234,6 +236,13 @@ func cmdCheck(args []string) {
 	}
 	if cfg.StableScan {
 		for _, o := range g.stableScan() {
+			if !notClaimed[baseName(o.Name)] || *update {
+				obs = append(obs, o)
+			}
+		}
+	}
+	if cfg.ImmutableScan {
+		for _, o := range g.immutableScan() {
 			if !notClaimed[baseName(o.Name)] || *update {
 				obs = append(obs, o)
 			}
@@ -699,6 +708,138 @@ func (g *Gen) atomicScan() []*Oblig {
 			o.Res = &SolveResult{Status: "sat", Solver: "access-scan", Output: "non-atomic access: " + strings.Join(bad, "; ")}
 		}
 		out = append(out, o)
+	}
+	return out
+}
+
+// immutableScan: for `immutable-impl I built-in files...`, every struct type of the package that
+// implements I (by value or by pointer) yields one obligation: outside the listed files no function
+// stores to one of its fields, or into a map, slice or array held directly in one of its fields,
+// unless the object is one the storing function has just allocated.
+func (g *Gen) immutableScan() []*Oblig {
+	var out []*Oblig
+	for _, d := range g.cs.ImmutableImpl {
+		sp := g.pkgs[d[0]]
+		if sp == nil {
+			continue
+		}
+		io := sp.Pkg.Scope().Lookup(d[1])
+		if io == nil {
+			continue
+		}
+		iface, ok := io.Type().Underlying().(*types.Interface)
+		if !ok {
+			continue
+		}
+		allowed := map[string]bool{}
+		for _, f := range d[2:] {
+			allowed[f] = true
+		}
+		bad := map[string][]string{}
+		stores := map[string]int{}
+		var names []string
+		tset := map[string]types.Type{}
+		sc := sp.Pkg.Scope()
+		for _, n := range sc.Names() {
+			tn, ok := sc.Lookup(n).(*types.TypeName)
+			if !ok || tn.IsAlias() {
+				continue
+			}
+			st, isS := tn.Type().Underlying().(*types.Struct)
+			if !isS || st.NumFields() == 0 {
+				continue
+			}
+			if types.Implements(tn.Type(), iface) || types.Implements(types.NewPointer(tn.Type()), iface) {
+				names = append(names, n)
+				tset[n] = tn.Type()
+			}
+		}
+		// ownerOf: the implementation type whose field (possibly of an embedded struct) addr denotes,
+		// and the root object expression
+		ownerOf := func(addr ssa.Value) (string, ssa.Value) {
+			fa, ok := addr.(*ssa.FieldAddr)
+			for ok {
+				t := deref(fa.X.Type())
+				if nt, isN := t.(*types.Named); isN && nt.Obj().Pkg() == sp.Pkg {
+					if _, in := tset[nt.Obj().Name()]; in {
+						root := fa.X
+						for {
+							if in2, ok2 := root.(*ssa.FieldAddr); ok2 {
+								root = in2.X
+								continue
+							}
+							break
+						}
+						return nt.Obj().Name(), root
+					}
+				}
+				fa, ok = fa.X.(*ssa.FieldAddr)
+			}
+			return "", nil
+		}
+		// heldIn: v is the value of (or the address of) a field of an implementation object
+		heldIn := func(v ssa.Value) (string, ssa.Value) {
+			if u, ok := v.(*ssa.UnOp); ok && u.Op == token.MUL {
+				return ownerOf(u.X)
+			}
+			return ownerOf(v)
+		}
+		for _, fn := range g.funcs {
+			if fn.Pkg != sp {
+				continue
+			}
+			f := g.prog.Fset.File(fn.Pos())
+			if f == nil || strings.HasPrefix(fn.Name(), "__vc_") || strings.Contains(f.Name(), "zz_verif_") || strings.HasSuffix(f.Name(), "_test.go") {
+				continue
+			}
+			inAllowed := allowed[filepath.Base(f.Name())]
+			note := func(tn string, root ssa.Value, pos token.Pos, what string) {
+				stores[tn]++
+				if inAllowed {
+					return
+				}
+				if _, isAlloc := root.(*ssa.Alloc); isAlloc {
+					return
+				}
+				p := g.prog.Fset.Position(pos)
+				bad[tn] = append(bad[tn], fmt.Sprintf("%s %s (%s:%d)", fn.RelString(sp.Pkg), what, filepath.Base(p.Filename), p.Line))
+			}
+			for _, b := range fn.Blocks {
+				for _, in := range b.Instrs {
+					switch in := in.(type) {
+					case *ssa.Store:
+						if tn, root := ownerOf(in.Addr); tn != "" {
+							note(tn, root, in.Pos(), "stores to a field")
+						} else if ia, ok := in.Addr.(*ssa.IndexAddr); ok {
+							if tn, root := heldIn(ia.X); tn != "" {
+								note(tn, root, in.Pos(), "stores into a slice/array held in a field")
+							}
+						}
+					case *ssa.MapUpdate:
+						if tn, root := heldIn(in.Map); tn != "" {
+							note(tn, root, in.Pos(), "updates a map held in a field")
+						}
+					case *ssa.Call:
+						if bi, ok := in.Call.Value.(*ssa.Builtin); ok && (bi.Name() == "delete" || bi.Name() == "copy" || bi.Name() == "clear") && len(in.Call.Args) > 0 {
+							if tn, root := heldIn(in.Call.Args[0]); tn != "" {
+								note(tn, root, in.Pos(), bi.Name()+"() on a map/slice held in a field")
+							}
+						}
+					}
+				}
+			}
+		}
+		sort.Strings(names)
+		for _, n := range names {
+			o := &Oblig{Name: fmt.Sprintf("%s.%s#immutable[%s]", sp.Pkg.Name(), n, d[1]), Func: n, Kind: "immutable", Label: d[1]}
+			if len(bad[n]) == 0 {
+				o.Res = &SolveResult{Status: "unsat", Solver: "store-scan", Output: fmt.Sprintf("%d stores, all in %s or to objects allocated in the storing function", stores[n], strings.Join(d[2:], " "))}
+			} else {
+				sort.Strings(bad[n])
+				o.Res = &SolveResult{Status: "sat", Solver: "store-scan", Output: "written outside the building code: " + strings.Join(bad[n], "; ")}
+			}
+			out = append(out, o)
+		}
 	}
 	return out
 }
